@@ -138,7 +138,8 @@ def random_rule(rng):
     if rng.random() < 0.4:
         if kind == 'send':
             if rng.random() < 0.3:
-                kw['peer'] = rng.choice(['com.example', 'com.example.A', 'com'])
+                kw['peer'] = rng.choice(['com.example', 'com.example.A', 'com', 'com.example.A.Sub', 'org.freedesktop', 'org.freedesktop.DBus',
+                                         'org', 'org.freedesktop.DBus.Private'])
                 kw['prefix'] = True
             else:
                 kw['peer'] = rng.choice(P_NAMES + ['org.freedesktop.DBus'])
@@ -164,7 +165,15 @@ def random_ctxs(rng, uids=(0, 1000, 65534)):
         c = rng.choice(['user', 'user', 'group', 'default', 'console_f', 'mandatory'])
         ident = rng.choice(uids) if c in ('user', 'group') else 0
         ctxs.append([c, ident, [random_rule(rng) for _ in range(rng.randint(1, 3))]])
-    ctxs.append(['mandatory', 0, [rule('send', True, peer='org.freedesktop.DBus'), rule('recv', True, peer='org.freedesktop.DBus')]])
+    if rng.random() < 0.7:
+        ctxs.append(['mandatory', 0, [rule('send', True, peer='org.freedesktop.DBus'), rule('recv', True, peer='org.freedesktop.DBus')]])
+    else:
+        # a narrower tail: only what the harness itself needs (Hello, barrier pings, everything the bus says) is guaranteed;
+        # every other request to the bus driver is decided by the random rules above (destination and prefix rules naming
+        # org.freedesktop.DBus are judged without a recipient connection)
+        ctxs.append(['mandatory', 0, [rule('send', True, ifc='org.freedesktop.DBus.Peer', peer='org.freedesktop.DBus'),
+                                      rule('send', True, ifc='org.freedesktop.DBus', mem='Hello', peer='org.freedesktop.DBus'),
+                                      rule('recv', True, peer='org.freedesktop.DBus')]])
     return ctxs
 
 
